@@ -12,6 +12,13 @@ func init() {
 
 const successStatusTag = "int(cfg.preflightStatusMinus200)+200"
 
+// isPreflightPath: the middleware answers the request itself (no handler
+// call, one status write). Which requests take such a path is C11's question
+// (R11.2); the other request-path properties speak about those paths.
+func isPreflightPath(rp *ReqPath) bool {
+	return rp.Not(aPass) && len(rp.Serves) == 0 && rp.NStatus >= 1
+}
+
 func isPreflightAtoms(rp *ReqPath) bool {
 	return rp.Not(aPass) && rp.Is(aOPTIONS) && rp.Is(aFoundO) && rp.Is(aFoundACRM)
 }
@@ -80,7 +87,7 @@ func checkC11(ctx *Ctx) *Result {
 		good, detail = rp.NStatus == 0, "status written on a path that reaches the wrapped handler"
 		for _, w := range rp.Writes {
 			switch {
-			case w.Key == hVary && w.Op == "add":
+			case w.Key == hVary && (w.Op == "add" || w.Op == "append"):
 			case (w.Key == hACAO || w.Key == hACAC || w.Key == hACEH) && (w.Op == "set" || w.Op == "assign"):
 			default:
 				good, detail = false, "response header operation outside the documented set: "+w.String()
@@ -113,7 +120,7 @@ func checkC16(ctx *Ctx) *Result {
 	r.rule("R16.2", "debug off: successful preflights name only *, true, *,authorization, request-supplied tokens and the configured max-age", 50)
 	failStatus := map[string]int{}
 	for _, rp := range rt.Paths {
-		if !isPreflightAtoms(rp) || rp.Is(aDebug) {
+		if !isPreflightPath(rp) || rp.Is(aDebug) {
 			continue
 		}
 		desc := rp.Describe()
